@@ -954,6 +954,11 @@ func (w *l1World) history() string { return strings.Join(w.log, "\n") }
 // chain started from an exported state need not keep its numbering - starts again at 1 or a few blocks
 // below the height recorded in one of the stored outputs, so that the new chain passes that number again.
 func (w *l1World) restart(rt *rapid.T) {
+	if len(w.ids) > 60 && rapid.IntRange(0, 3).Draw(rt, "restartBigChain") != 0 {
+		// exporting a chain with hundreds of bridges is slow in this environment (nothing is ever committed to the
+		// database): such chains restart a quarter as often
+		return
+	}
 	gs := w.e.K.ExportGenesis(w.e.Ctx)
 	h := w.e.Ctx.BlockHeight()
 	switch rapid.IntRange(0, 5).Draw(rt, "restartHeight") {
